@@ -201,7 +201,25 @@ const (
 	ixKnownFTP  = "idx-known-non-http"    // rl_b's own entry has an ftp URL
 	ixManyBad   = "idx-extra-many"        // all of the additional invalid entries at once
 	ixWrongType = "idx-extra-wrong-shape" // entries of a different JSON shape (no known fields)
+
+	// Duplicate keys: rl_b is listed twice, once with an unusable URL and once
+	// with a valid one that points to the new content, in either order.  The
+	// valid entry must be applied.
+	ixDupInvValEmpty = "idx-dup-invalid-then-valid-empty-url"
+	ixDupInvValFTP   = "idx-dup-invalid-then-valid-non-http"
+	ixDupInvValBad   = "idx-dup-invalid-then-valid-unparsable"
+	ixDupValInvEmpty = "idx-dup-valid-then-invalid-empty-url"
+	ixDupValInvFTP   = "idx-dup-valid-then-invalid-non-http"
+	ixDupValInvBad   = "idx-dup-valid-then-invalid-unparsable"
+	// Control: two valid entries for rl_b, the second pointing elsewhere (the
+	// static mark list).  The code documents that the first entry is used and
+	// the second reported as duplicated.
+	ixDupValValOther = "idx-dup-valid-then-valid-other-url"
 )
+
+var idxDupKinds = []string{ixDupInvValEmpty, ixDupInvValFTP, ixDupInvValBad, ixDupValInvEmpty, ixDupValInvFTP, ixDupValInvBad, ixDupValValOther}
+
+func isIdxDup(k string) bool { return strings.HasPrefix(k, "idx-dup-") }
 
 var idxExtraKinds = []string{ixBadKey, ixEmptyURL, ixNoURL, ixNonHTTP, ixBadURL, ixDupID, ixNullEntry, ixManyBad, ixWrongType}
 var idxKnownKinds = []string{ixKnownURL, ixKnownFTP}
@@ -247,11 +265,25 @@ func indexText(urls map[string]string, v int, variant string) []byte {
 	} else {
 		extra(variant)
 	}
+	badURL := map[string]string{
+		ixDupInvValEmpty: "", ixDupValInvEmpty: "",
+		ixDupInvValFTP: "ftp://127.0.0.1/rl_b", ixDupValInvFTP: "ftp://127.0.0.1/rl_b",
+		ixDupInvValBad: "http://[::1", ixDupValInvBad: "http://[::1",
+	}
 	switch variant {
 	case ixKnownURL:
 		add(tRLb, sp(""))
 	case ixKnownFTP:
 		add(tRLb, sp("ftp://127.0.0.1/rl_b"))
+	case ixDupInvValEmpty, ixDupInvValFTP, ixDupInvValBad:
+		add(tRLb, sp(badURL[variant]))
+		add(tRLb, sp(urls[tRLb]))
+	case ixDupValInvEmpty, ixDupValInvFTP, ixDupValInvBad:
+		add(tRLb, sp(urls[tRLb]))
+		add(tRLb, sp(badURL[variant]))
+	case ixDupValValOther:
+		add(tRLb, sp(urls[tRLb]))
+		add(tRLb, sp(urls[tMark]))
 	default:
 		add(tRLb, sp(urls[tRLb]))
 	}
